@@ -52,7 +52,17 @@ const tiCompositeTag = 200
 
 var _ atree.TypeInfo = TI{}
 
+// tiFailID: a type info with this id fails to encode while the value is non-zero (fault injection into the caller-supplied
+// TypeInfo.Encode; C16 error paths). 0 = never.
+var tiFailID atomic.Uint64
+
+// ErrTypeInfo is the injected TypeInfo.Encode failure.
+var ErrTypeInfo = errors.New("verif: injected type-info encoding fault")
+
 func (t TI) Encode(enc *cbor.StreamEncoder) error {
+	if f := tiFailID.Load(); f != 0 && t.ID == f {
+		return ErrTypeInfo
+	}
 	if t.Composite {
 		if err := enc.EncodeTagHead(tiCompositeTag); err != nil {
 			return err
